@@ -44,8 +44,8 @@ func simpleLocal(a *ssa.Alloc) bool {
 		}
 		return true
 	}
-	if kindOf(a.Type().(*types.Pointer).Elem()) == "opaque" {
-		return true
+	if _, isArr := a.Type().(*types.Pointer).Elem().Underlying().(*types.Array); isArr {
+		return false
 	}
 	return ok(a)
 }
@@ -72,7 +72,15 @@ func (fr *Frame) execBlock(b *ssa.BasicBlock, st *State, l *Loop) []*Edge {
 			// phis were evaluated on entry
 		case *ssa.Alloc:
 			et := x.Type().(*types.Pointer).Elem()
-			if simpleLocal(x) {
+			if at, isArr := et.Underlying().(*types.Array); isArr {
+				r := vc.alloc()
+				if at.Len() <= 64 {
+					for i := int64(0); i < at.Len(); i++ {
+						st.store(Elem(r, IntLit(i)), at.Elem(), zeroValue(at.Elem()))
+					}
+				}
+				fr.env[x] = r
+			} else if simpleLocal(x) {
 				c := fr.cells[x]
 				if c == nil {
 					vc.cellN++
@@ -243,6 +251,7 @@ func (fr *Frame) storeTo(st *State, addr ssa.Value, t types.Type, v Value, pos t
 	}
 	p := a.(*Term)
 	fr.vc.check(st, "nil", "store:"+fr.label(addr), Not(Eq(p, TNil)), pos)
+	fr.frameCheck(st, p, t, fr.label(addr), pos)
 	st.store(p, t, v)
 }
 
@@ -256,6 +265,7 @@ func (fr *Frame) unop(x *ssa.UnOp, st *State) Value {
 		p := a.(*Term)
 		fr.vc.check(st, "nil", "load:"+fr.label(x.X), Not(Eq(p, TNil)), x.Pos())
 		v := st.load(p, x.Type())
+		fr.vc.wellFormed(st, v)
 		return v
 	case token.NOT:
 		return Not(fr.get(x.X).(*Term))
@@ -367,6 +377,14 @@ func (fr *Frame) indexAddr(x *ssa.IndexAddr, st *State) Value {
 	case SliceV:
 		fr.vc.check(st, "bounds", fr.label(x.X)+"[]", And(Le(IntLit(0), i), Lt(i, b.Len)), x.Pos())
 		return Elem(b.Base, i)
+	case *Term:
+		if pt, ok := x.X.Type().Underlying().(*types.Pointer); ok {
+			if at, ok := pt.Elem().Underlying().(*types.Array); ok {
+				fr.vc.check(st, "nil", fr.label(x.X), Not(Eq(b, TNil)), x.Pos())
+				fr.vc.check(st, "bounds", fr.label(x.X)+"[]", And(Le(IntLit(0), i), Lt(i, IntLit(at.Len()))), x.Pos())
+				return Elem(b, i)
+			}
+		}
 	}
 	fr.vc.oblige(st, "subset", "indexaddr-on-array", nil, TFalse, x.Pos())
 	return VarB(freshName("idx"), SRef, fr.vc.allocN)
@@ -401,6 +419,11 @@ func (fr *Frame) sliceOp(x *ssa.Slice, st *State) Value {
 	if x.Low == nil && x.High == nil {
 		if s, ok := base.(SliceV); ok {
 			return s
+		}
+		if pt, ok := x.X.Type().Underlying().(*types.Pointer); ok {
+			if at, ok := pt.Elem().Underlying().(*types.Array); ok {
+				return SliceV{base.(*Term), IntLit(at.Len())}
+			}
 		}
 	}
 	if kindOf(x.X.Type()) == "str" {
